@@ -113,7 +113,15 @@ let node_of id = try Hashtbl.find nodes id with Not_found -> failwith ("unknown 
 
 let handle check diff (toks : string list) (raw : string) : bool =
   match toks with
-  | ("B" | "I" | "G" | "o" | "K") :: id :: _ when Hashtbl.mem dead id -> true
+  | ("B" | "I" | "G" | "o" | "K" | "J" | "P") :: id :: _ when Hashtbl.mem dead id -> true
+  | "J" :: id :: rest ->                       (* InsertEvent only (batched consensus passes) *)
+    let n = node_of id in
+    let (e, tail) = parse_event rest in
+    let (res, st') = insert_event n.st e in
+    n.st <- st';
+    let expect = match tail with "=>" :: r :: _ -> r | _ -> "?" in
+    check "J" raw expect (res_str res); true
+  | "P" :: id :: [] -> let n = node_of id in n.st <- run_consensus n.st; true
   | "F" :: id :: [] -> Hashtbl.replace dead id (); true
   | "H" :: _ -> Hashtbl.reset nodes; Hashtbl.reset dead; Hashtbl.reset body_of_id; Hashtbl.reset id_of_body; true
   | "N" :: id :: self :: gen ->
